@@ -38,7 +38,11 @@ def _classes():
             return out
 
         def _wrap(self, m):
-            if self.jac_kind == "sparse":
+            # "<kind>_i": the same matrix with an integer data type (the partials are integers; not for the
+            # polynomial leaves whose Jacobian is 2 x diag); the specification's value does not depend on it
+            if self.jac_kind.endswith("_i") and not self.poly:
+                m = np.array(np.rint(m), dtype=np.int64)
+            if self.jac_kind.startswith("sparse"):
                 return csr_array(m)
             if self.jac_kind == "operator":
                 op = JacobianOperator(dtype=m.dtype, shape=m.shape)
